@@ -305,14 +305,14 @@ Section CrashProofs.
     { rewrite B. unfold StoreCrash.w_tmp, StoreCrash.w_dir, name_from_id. cbn [fst w_store st_base].
       now rewrite <- app_assoc. }
     assert (D' : is_dir (stat (st_base st) (fst (run step sched (init base wd s0)))) = true) by (rewrite B; exact D).
-    destruct (prune_complete true st keep fuel bstr _ _ D' P) as [_ C2]. specialize (C2 eq_refl).
+    destruct (prune_complete true never st keep fuel bstr _ _ D' P) as [_ C2]. specialize (C2 eq_refl).
     rewrite Shape in S'. specialize (C2 _ _ S').
     assert (L : last (st_base st ++ [firstn 4 (hex_id (wd_id (wd i))); tmp_name r]) [] = tmp_name r).
     { change [firstn 4 (hex_id (wd_id (wd i))); tmp_name r] with ([firstn 4 (hex_id (wd_id (wd i)))] ++ [tmp_name r]).
       rewrite app_assoc. apply last_app_single. }
     rewrite L in C2. specialize (C2 (is_tmp_tmp_name r)).
     rewrite <- Shape in S'.
-    destruct (prune_safe true st keep _ _ _ _ _ P (w_tmp i r)) as [E|(N & _)]; [|congruence].
+    destruct (prune_safe true never st keep _ _ _ _ _ P (w_tmp i r)) as [E|(N & _)]; [|congruence].
     pose proof (store_crash_paths sched (w_tmp i r)) as G. cbv zeta in G. rewrite <- E, S' in G.
     destruct G as [G|[(_ & G & j & Ij)|[(j & Q & _)|(_ & j & r' & k & _ & _ & G)]]].
     - congruence.
